@@ -1,0 +1,58 @@
+//go:build verif
+
+package server
+
+// Contracts for the verification framework in /verif (comment-only file; it
+// contains no code and is excluded from normal builds by the build tag).
+
+// ---- C16: index lookups against their linear-scan specification ----
+
+//@ pred TxsOK(c *Client) := c.Exportable != nil && (forall k int :: 0 <= k && k < len(c.MsgTxs) ==> c.MsgTxs[k] != nil)
+
+//@ func (c *Client) TxAtQueueTick(qTick uint64) (i int)
+//@   props C16
+//@   requires ok:   TxsOK(c)
+//@   requires mono: forall a, b int :: 0 <= a && a < b && b < len(c.MsgTxs) ==> c.MsgTxs[a].QueueTick <= c.MsgTxs[b].QueueTick
+//@   ensures  empty: len(c.MsgTxs) == 0 ==> i == -1
+//@   ensures  range: len(c.MsgTxs) > 0 ==> 0 <= i && i < len(c.MsgTxs)
+//@   ensures  first: len(c.MsgTxs) > 0 && (exists j int :: 0 <= j && j < len(c.MsgTxs) && c.MsgTxs[j].QueueTick >= qTick) ==>
+//@                     c.MsgTxs[i].QueueTick >= qTick && (forall j int :: 0 <= j && j < i ==> c.MsgTxs[j].QueueTick < qTick)
+//@   ensures  last:  len(c.MsgTxs) > 0 && !(exists j int :: 0 <= j && j < len(c.MsgTxs) && c.MsgTxs[j].QueueTick >= qTick) ==> i == len(c.MsgTxs) - 1
+
+//@ func (c *Client) HadErrSinceTx(tx, distance int) (r bool)
+//@   props C16
+//@   requires desc: forall a, b int :: 0 <= a && a < b && b < len(c.Errors) ==> c.Errors[a] > c.Errors[b]
+//@   ensures  def:  r <==> (mem(c.Errors, tx) || (exists k int :: 0 <= k && k < len(c.Errors) && c.Errors[k] < tx && tx - c.Errors[k] < distance))
+
+//@ func (c *Client) TxIndex(id string) (i int)
+//@   props C16
+//@   requires ok:    TxsOK(c) && unlocked(c.txCacheMx)
+//@   requires cache: isnil(c.txCache) || (forall k string :: has(c.txCache, k) ==> 0 <= c.txCache[k] && c.txCache[k] < len(c.MsgTxs) && c.MsgTxs[c.txCache[k]].ID == k)
+//@   assigns  c.txCache, c.txCacheMx
+//@   ensures  hit:   i != -1 ==> 0 <= i && i < len(c.MsgTxs) && c.MsgTxs[i].ID == id
+//@   ensures  miss:  i == -1 ==> (forall j int :: 0 <= j && j < len(c.MsgTxs) ==> c.MsgTxs[j].ID != id)
+//@   ensures  cache: !isnil(c.txCache) && (forall k string :: has(c.txCache, k) ==> 0 <= c.txCache[k] && c.txCache[k] < len(c.MsgTxs) && c.MsgTxs[c.txCache[k]].ID == k)
+//@   ensures  locks: unlocked(c.txCacheMx)
+//@   loop 1 invariant scan: forall j int :: 0 <= j && j < i ==> c.MsgTxs[j].ID != id
+//@   loop 1 invariant cache: !isnil(c.txCache) && (forall k string :: has(c.txCache, k) ==> 0 <= c.txCache[k] && c.txCache[k] < len(c.MsgTxs) && c.MsgTxs[c.txCache[k]].ID == k)
+
+//@ func (c *Client) Tx(idx int) (r *dbg.DbgMsgTx)
+//@   props C16
+//@   requires ok: c.Exportable != nil
+//@   ensures  def: (0 <= idx && idx < len(c.MsgTxs)) ? r == c.MsgTxs[idx] : r == nil
+
+//@ func (c *Client) TxParsed(idx int) (r *types.MsgTxParsed)
+//@   props C16
+//@   ensures  def: (0 <= idx && idx < len(c.MsgTxsParsed)) ? r == c.MsgTxsParsed[idx] : r == nil
+
+//@ func (c *Client) TxAtMachTime(sum uint64) (i int)
+//@   props C16
+//@   requires ok:   forall k int :: 0 <= k && k < len(c.MsgTxsParsed) ==> c.MsgTxsParsed[k] != nil
+//@   requires mono: forall a, b int :: 0 <= a && a < b && b < len(c.MsgTxsParsed) ==> c.MsgTxsParsed[a].TimeSum <= c.MsgTxsParsed[b].TimeSum
+//@   ensures  hit:  (exists j int :: 0 <= j && j < len(c.MsgTxsParsed) && c.MsgTxsParsed[j].TimeSum == sum) ==>
+//@                    0 <= i && i < len(c.MsgTxsParsed) && c.MsgTxsParsed[i].TimeSum == sum && (forall j int :: 0 <= j && j < i ==> c.MsgTxsParsed[j].TimeSum < sum)
+//@   ensures  miss: !(exists j int :: 0 <= j && j < len(c.MsgTxsParsed) && c.MsgTxsParsed[j].TimeSum == sum) ==> i == 0
+
+//@ func (c *Client) FilterIndexByCursor1(cursor1 int) (r int)
+//@   props C16
+//@   ensures def: r == (cursor1 == 0 ? 0 : index(c.MsgTxsFiltered, cursor1 - 1))
